@@ -71,35 +71,154 @@ theorem dinv_init : DInv DS.init := by
 theorem users_pos_of_obj (s : DS) (o h : Nat) (ho : s.objs[o]? = some (some h)) : 0 < users s h :=
   List.count_pos_iff.mpr (List.mem_of_getElem? ho)
 
-theorem dstep_inv (s : DS) (op : DOp) (hs : DInv s) : DInv (s.step op) := by
-  have share : ∀ (o h0 : Nat), s.objs[o]? = some (some h0) →
-      DInv { s with objs := s.objs ++ [some h0], rc := s.rc.set h0 (s.rc[h0]?.getD 0 + 1) } := by
-    intro o h0 ho h
-    have hpos := users_pos_of_obj s o h0 ho
-    obtain ⟨a1, a2⟩ := hs h0
-    obtain ⟨b1, b2⟩ := hs h
-    have hlt : h0 < s.rc.length := by
-      by_cases hn : h0 < s.rc.length
-      · exact hn
-      · rw [ind_false hn, ind_true hpos] at a2; omega
-    have hu : users { s with objs := s.objs ++ [some h0], rc := s.rc.set h0 (s.rc[h0]?.getD 0 + 1) } h
-        = users s h + ind (h0 = h) := by
-      simp only [users, List.count_append]
-      have : [some h0].count (some h) = ind (h0 = h) := by
-        rw [count_cons_ind, ind_some]; simp
-      rw [this]
-    simp only [closed] at *
-    rw [hu, getD_set]
+theorem share_inv (s : DS) (o : Nat) (hs : DInv s) : DInv (s.shareStep o) := by
+  unfold DS.shareStep
+  cases ho : s.objs[o]? with
+  | none => exact hs
+  | some c =>
+    cases c with
+    | none => exact hs
+    | some h0 =>
+      intro h
+      have hpos := users_pos_of_obj s o h0 ho
+      obtain ⟨a1, a2⟩ := hs h0
+      obtain ⟨b1, b2⟩ := hs h
+      have hlt : h0 < s.rc.length := by
+        by_cases hn : h0 < s.rc.length
+        · exact hn
+        · rw [ind_false hn, ind_true hpos] at a2; omega
+      have hu : users { s with objs := s.objs ++ [some h0], rc := s.rc.set h0 (s.rc[h0]?.getD 0 + 1) } h
+          = users s h + ind (h0 = h) := by
+        simp only [users, List.count_append]
+        have : [some h0].count (some h) = ind (h0 = h) := by
+          rw [count_cons_ind, ind_some]; simp
+        rw [this]
+      simp only [closed] at *
+      rw [hu, getD_set]
+      simp only [List.length_set]
+      by_cases he : h0 = h
+      · subst he
+        rw [ind_true rfl, if_pos ⟨rfl, hlt⟩]
+        refine ⟨by omega, ?_⟩
+        rw [ind_true (by omega)]
+        rw [ind_true hpos] at b2
+        exact b2
+      · rw [ind_false he, if_neg (by simp [he])]
+        exact ⟨by omega, by simpa using b2⟩
+
+theorem destroy_inv (s : DS) (o : Nat) (hs : DInv s) : DInv (s.destroyStep o) := by
+  unfold DS.destroyStep
+  cases ho : s.objs[o]? with
+  | none => exact hs
+  | some c =>
+    cases c with
+    | none => exact hs
+    | some h0 =>
+      intro h
+      have hpos := users_pos_of_obj s o h0 ho
+      obtain ⟨a1, a2⟩ := hs h0
+      obtain ⟨b1, b2⟩ := hs h
+      have hlt : h0 < s.rc.length := by
+        by_cases hn : h0 < s.rc.length
+        · exact hn
+        · rw [ind_false hn, ind_true hpos] at a2; omega
+      have ho' : o < s.objs.length := by
+        by_cases hn : o < s.objs.length
+        · exact hn
+        · rw [List.getElem?_eq_none (by omega)] at ho; simp at ho
+      have hget : s.objs[o] = some h0 := by
+        rw [List.getElem?_eq_getElem ho'] at ho; simpa using ho
+      have e := count_set s.objs o none (some h) ho'
+      rw [hget, ind_none, ind_some] at e
+      simp only [users, closed] at *
+      rw [getD_set]
+      simp only [List.length_set]
+      by_cases he : h0 = h
+      · subst he
+        rw [ind_true rfl] at e
+        rw [if_pos ⟨rfl, hlt⟩]
+        refine ⟨by omega, ?_⟩
+        rw [ind_true hpos] at b2
+        by_cases h1 : s.rc[h0]?.getD 0 = 1
+        · rw [if_pos h1, List.count_append]
+          have : [h0].count h0 = 1 := by simp
+          rw [this, ind_false (by omega)]
+          omega
+        · rw [if_neg h1, ind_true (by omega)]
+          omega
+      · rw [ind_false he] at e
+        rw [if_neg (by simp [he])]
+        refine ⟨by omega, ?_⟩
+        have hc : (if s.rc[h0]?.getD 0 = 1 then s.closes ++ [h0] else s.closes).count h = s.closes.count h := by
+          split
+          · rw [List.count_append]
+            have : [h0].count h = 0 := by simp [he]
+            omega
+          · rfl
+        rw [hc]
+        have : List.count (some h) (s.objs.set o none) = List.count (some h) s.objs := by omega
+        rw [this]; exact b2
+
+/-- Moving the share of the last object into an emptied slot `o` changes no count. -/
+theorem relabel_users (objs : List (Option Nat)) (o hp : Nat) (ho : o + 1 < objs.length)
+    (he : objs[o]? = some none) (hl : objs.getLast? = some (some hp)) (h : Nat) :
+    ((objs.set o (some hp)).dropLast).count (some h) = objs.count (some h) := by
+  have ho' : o < objs.length := by omega
+  have e1 := count_set objs o (some hp) (some h) ho'
+  have hget : objs[o] = none := by
+    rw [List.getElem?_eq_getElem ho'] at he; simpa using he
+  rw [hget, ind_none] at e1
+  have e2 := count_dropLast (objs.set o (some hp)) (some h)
+  have hlast : (objs.set o (some hp)).getLast? = some (some hp) := by
+    rw [List.getLast?_eq_getElem?] at hl ⊢
     simp only [List.length_set]
-    by_cases he : h0 = h
-    · subst he
-      rw [ind_true rfl, if_pos ⟨rfl, hlt⟩]
-      refine ⟨by omega, ?_⟩
-      rw [ind_true (by omega)]
-      rw [ind_true hpos] at b2
-      exact b2
-    · rw [ind_false he, if_neg (by simp [he])]
-      exact ⟨by omega, by simpa using b2⟩
+    rw [List.getElem?_set_ne (by omega)]; exact hl
+  rw [hlast] at e2
+  have : ind (some (some hp) = some (some h)) = ind ((some hp : Option Nat) = some h) := ind_congr (by simp)
+  rw [this] at e2
+  omega
+
+theorem assign_inv (s : DS) (o p : Nat) (hs : DInv s) : DInv (s.assignStep o p) := by
+  unfold DS.assignStep
+  cases ho : s.objs[o]? with
+  | none => exact hs
+  | some co =>
+    cases co with
+    | none => exact hs
+    | some h0 =>
+      cases hp : s.objs[p]? with
+      | none => exact hs
+      | some cp =>
+        cases cp with
+        | none => exact hs
+        | some hp' =>
+          simp only
+          have h2 : DInv ((s.shareStep p).destroyStep o) := destroy_inv _ o (share_inv s p hs)
+          -- shape of the intermediate object list
+          have ho' : o < s.objs.length := by
+            by_cases hn : o < s.objs.length
+            · exact hn
+            · rw [List.getElem?_eq_none (by omega)] at ho; simp at ho
+          have hshare : (s.shareStep p).objs = s.objs ++ [some hp'] := by
+            simp [DS.shareStep, hp]
+          have hobj1 : (s.shareStep p).objs[o]? = some (some h0) := by
+            rw [hshare, List.getElem?_append_left ho']; exact ho
+          have hobjs : ((s.shareStep p).destroyStep o).objs = (s.objs ++ [some hp']).set o none := by
+            simp only [DS.destroyStep, hobj1]; rw [hshare]
+          intro h
+          obtain ⟨c1, c2⟩ := h2 h
+          have hrel := relabel_users ((s.objs ++ [some hp']).set o none) o hp'
+            (by simp; omega) (by rw [List.getElem?_set_self (by simp; omega)])
+            (by
+              rw [List.getLast?_eq_getElem?]
+              simp only [List.length_set, List.length_append, List.length_singleton, Nat.add_sub_cancel]
+              rw [List.getElem?_set_ne (by omega), List.getElem?_append_right (by omega)]
+              simp) h
+          simp only [users, closed, hobjs] at c1 c2 ⊢
+          rw [hrel]
+          exact ⟨c1, c2⟩
+
+theorem dstep_inv (s : DS) (op : DOp) (hs : DInv s) : DInv (s.step op) := by
   cases op with
   | openOk =>
     intro h
@@ -124,75 +243,11 @@ theorem dstep_inv (s : DS) (op : DOp) (hs : DInv s) : DInv (s.step op) := by
     · rw [if_neg he, ind_false (fun e => he e.symm)]
       exact ⟨by omega, by simpa using b2⟩
   | openFail => exact hs
-  | loadOk o =>
-    simp only [DS.step]
-    cases ho : s.objs[o]? with
-    | none => exact hs
-    | some c =>
-      cases c with
-      | none => exact hs
-      | some h0 => exact share o h0 ho
-  | copy o =>
-    simp only [DS.step]
-    cases ho : s.objs[o]? with
-    | none => exact hs
-    | some c =>
-      cases c with
-      | none => exact hs
-      | some h0 => exact share o h0 ho
+  | loadOk o => exact share_inv s o hs
+  | copy o => exact share_inv s o hs
   | loadFail o => exact hs
-  | destroy o =>
-    simp only [DS.step]
-    cases ho : s.objs[o]? with
-    | none => exact hs
-    | some c =>
-      cases c with
-      | none => exact hs
-      | some h0 =>
-        intro h
-        have hpos := users_pos_of_obj s o h0 ho
-        obtain ⟨a1, a2⟩ := hs h0
-        obtain ⟨b1, b2⟩ := hs h
-        have hlt : h0 < s.rc.length := by
-          by_cases hn : h0 < s.rc.length
-          · exact hn
-          · rw [ind_false hn, ind_true hpos] at a2; omega
-        have ho' : o < s.objs.length := by
-          by_cases hn : o < s.objs.length
-          · exact hn
-          · rw [List.getElem?_eq_none (by omega)] at ho; simp at ho
-        have hget : s.objs[o] = some h0 := by
-          rw [List.getElem?_eq_getElem ho'] at ho; simpa using ho
-        have e := count_set s.objs o none (some h) ho'
-        rw [hget, ind_none, ind_some] at e
-        simp only [users, closed] at *
-        rw [getD_set]
-        simp only [List.length_set]
-        by_cases he : h0 = h
-        · subst he
-          rw [ind_true rfl] at e
-          rw [if_pos ⟨rfl, hlt⟩]
-          refine ⟨by omega, ?_⟩
-          rw [ind_true hpos] at b2
-          by_cases h1 : s.rc[h0]?.getD 0 = 1
-          · rw [if_pos h1, List.count_append]
-            have : [h0].count h0 = 1 := by simp
-            rw [this, ind_false (by omega)]
-            omega
-          · rw [if_neg h1, ind_true (by omega)]
-            omega
-        · rw [ind_false he] at e
-          rw [if_neg (by simp [he])]
-          refine ⟨by omega, ?_⟩
-          have hc : (if s.rc[h0]?.getD 0 = 1 then s.closes ++ [h0] else s.closes).count h = s.closes.count h := by
-            split
-            · rw [List.count_append]
-              have : [h0].count h = 0 := by simp [he]
-              omega
-            · rfl
-          rw [hc]
-          have : List.count (some h) (s.objs.set o none) = List.count (some h) s.objs := by omega
-          rw [this]; exact b2
+  | destroy o => exact destroy_inv s o hs
+  | assign o p => exact assign_inv s o p hs
 
 /-- **Every history** keeps the invariant. -/
 theorem dhistory_inv (ops : List DOp) : DInv (DS.run DS.init ops) := by
@@ -222,6 +277,9 @@ theorem failed_ops_neutral (s : DS) (o : Nat) :
 /-! Non-vacuity. -/
 example : (DS.run DS.init [.openOk, .loadOk 0, .destroy 0, .copy 1, .destroy 1]).closes = [] := by decide
 example : (DS.run DS.init [.openOk, .loadOk 0, .destroy 0, .copy 1, .destroy 1, .destroy 2]).closes = [0] := by
+  decide
+-- symA = symB between two libraries: A's library closes as soon as nothing else shares it, B's stays open
+example : (DS.run DS.init [.openOk, .openOk, .loadOk 0, .loadOk 1, .destroy 0, .assign 2 3]).closes = [0] := by
   decide
 
 end NitroVerif.Props.C19
